@@ -421,7 +421,7 @@ func (e *acctEval) step(in ssa.Instruction) {
 	case *ssa.Store:
 		a := e.addr(x.Addr)
 		k, _ := fieldKeyOfAddr(x.Addr)
-		if k == e.spec.Account {
+		if k != "" && k == e.spec.Account {
 			owner := e.sym(x.Addr.(*ssa.FieldAddr).X)
 			old, ok := st.mem[a]
 			if !ok {
@@ -435,7 +435,7 @@ func (e *acctEval) step(in ssa.Instruction) {
 		}
 		// the int inside an element of a pointer map
 		for _, vf := range e.spec.PtrMaps {
-			if k == vf {
+			if k != "" && k == vf {
 				p := e.sym(x.Addr.(*ssa.FieldAddr).X)
 				old, ok := st.mem[a]
 				if !ok {
